@@ -223,6 +223,7 @@ Inductive oitem := OLine (b : bytes) | ONum (z : Z) | OMsg (k : N) | OEcho (b : 
 (* message kinds *)
 Definition M_UNKNOWN : N := 1%N.  Definition M_READFAIL : N := 2%N.  Definition M_READ : N := 3%N.
 Definition M_MODIFIED : N := 4%N. Definition M_WRITE : N := 5%N.
+Definition M_GDEEP : N := 6%N.        (* "global nesting too deep" *)
 
 Record st := mkst {
   lb : lbuf;
@@ -937,7 +938,11 @@ Fixpoint glob_loop (fuel : nat) (i : nat) (pat body : bytes) (not : bool) (dep :
     end
   end.
 
+(* GDEPMAX: ln_glob[] is a char array and the mark of nesting level dep is the bit 1 << dep, so the levels 1..7 exist;
+   `if (xgdep >= 7) { ex_show("global nesting too deep"); return 1; }` (/repo daf82c9) *)
+Definition GDEPMAX : nat := 7.
 Definition ec_glob (fuel : nat) (loc cmd arg : bytes) (s : st) : st * Z :=
+  if (GDEPMAX <=? xgdep s)%nat then (emit s (OMsg M_GDEEP), 1) else
   let loc := match loc, xgdep s with [], O => [37%N] | _, _ => loc end in
   let '(bad, b, e, s1) := ex_region loc s in
   if bad || ex_zero loc b e then (s1, 1)
